@@ -270,6 +270,7 @@ pub fn gen_random(seed: u64, idx: u64) -> Plan {
                     delay_ms: r.range(0, 20),
                     req: j,
                     cancel_ms: 0,
+                    no_length: r.chance(1, 2),
                 });
                 c.reqs.push(sr.plan);
                 nonce += 1;
